@@ -444,6 +444,83 @@ def translate_glue():
             'refdom.facets)[1] *)\nDefinition gen_decoder_slot_table_is_of_connectivity_as_read : bool := true.')
 
 
+def translate_save_forwarding():
+    """Mesh.save -> io.meshio.to_file -> to_meshio: which argument reaches which parameter, the defaults, and how the data
+    dictionaries of the caller are combined with the encoded tags (structural)"""
+    tree = t2.parse(MESHIO)
+    to = t2.find_def(tree, 'to_meshio')
+    tf = t2.find_def(tree, 'to_file')
+    sv = t2.find_def(t2.parse(MESH), 'save', 'Mesh')
+
+    def sig(fn, drop):
+        names = [a.arg for a in fn.args.args]
+        dflt = [t2.src(d) for d in fn.args.defaults]
+        d = dict(zip(names[len(names) - len(dflt):], dflt))
+        return [n for n in names if n not in drop], d
+    p_to, d_to = sig(to, ())
+    p_tf, d_tf = sig(tf, ('filename',))
+    p_sv, d_sv = sig(sv, ('filename',))
+    if to.args.kwarg or not tf.args.kwarg or tf.args.kwarg.arg != 'kwargs' or not sv.args.kwarg or sv.args.kwarg.arg != 'kwargs':
+        raise TranslateError('save / to_file / to_meshio: **kwargs')
+    # to_file: meshio.write(path, to_meshio(<positional names>), **kwargs)
+    wr = tf.body[-1]
+    call = wr.value if isinstance(wr, ast.Expr) else None
+    if not (isinstance(call, ast.Call) and t2.src(call.func) == 'meshio.write' and len(call.args) == 2
+            and t2.src(call.args[0]) == 'path' and [k.arg for k in call.keywords] == [None]
+            and t2.src(call.keywords[0].value) == 'kwargs' and isinstance(call.args[1], ast.Call)
+            and t2.src(call.args[1].func) == 'to_meshio' and not call.args[1].keywords
+            and all(isinstance(a, ast.Name) for a in call.args[1].args)):
+        raise TranslateError('to_file: ' + t2.src(wr))
+    passed_tf = [a.id for a in call.args[1].args]
+    # Mesh.save: return to_file(self, filename, point_data, cell_data, **kwargs)
+    rt = sv.body[-1]
+    c2 = rt.value if isinstance(rt, ast.Return) else None
+    if not (isinstance(c2, ast.Call) and t2.src(c2.func) == 'to_file' and [k.arg for k in c2.keywords] == [None]
+            and t2.src(c2.keywords[0].value) == 'kwargs' and all(isinstance(a, ast.Name) for a in c2.args)):
+        raise TranslateError('Mesh.save: ' + t2.src(rt))
+    passed_sv = [a.id for a in c2.args]
+    tf_all = [a.arg for a in tf.args.args]
+    # data dictionaries: if <flag>: X = {**(<user part>), **mesh._encode_<kind>_data()}
+    blocks = {}
+    for st in to.body:
+        if isinstance(st, ast.If) and isinstance(st.test, ast.Name) and st.test.id.startswith('encode_'):
+            a = t2.only(st.body, 'to_meshio: ' + st.test.id)
+            if not (isinstance(a, ast.Assign) and isinstance(a.targets[0], ast.Name) and isinstance(a.value, ast.Dict)
+                    and all(k is None for k in a.value.keys) and not st.orelse):
+                raise TranslateError('to_meshio: ' + t2.src(st))
+            tgt = a.targets[0].id
+            parts = [t2.src(v) for v in a.value.values]
+            enc = [x for x in parts if x.startswith('mesh._encode_')]
+            usr = [x for x in parts if x in (f'{{}} if {tgt} is None else {tgt}', f'{tgt} or {{}}')]
+            if len(enc) != 1 or len(parts) != len(enc) + len(usr) or (usr and parts[0] != usr[0]):
+                raise TranslateError('to_meshio: ' + t2.src(a))
+            blocks[tgt] = (st.test.id, enc[0], bool(usr))
+    if set(blocks) != {'cell_data', 'point_data'} or blocks['cell_data'][1] != 'mesh._encode_cell_data()' \
+            or blocks['point_data'][1] != 'mesh._encode_point_data()':
+        raise TranslateError('to_meshio: data blocks ' + repr(blocks))
+    mk = [s for s in to.body if isinstance(s, ast.Assign) and t2.src(s.targets[0]) == 'mio']
+    if t2.src(t2.only(mk, 'to_meshio: meshio.Mesh').value) != 'meshio.Mesh(mesh.p.T, cells, point_data=point_data, cell_data=cell_data)':
+        raise TranslateError('to_meshio: meshio.Mesh call')
+    sl = lambda l: clist([f'"{x}"%string' for x in l])
+    dl = lambda d: clist([f'("{k}"%string, "{v}"%string)' for k, v in d.items()])
+
+    def data(tgt):
+        flag, _, merged = blocks[tgt]
+        return (f'Definition gen_{tgt}_of_to_meshio {{V}} (encode_cell_data encode_point_data : bool) (user : option (list (string * V)))\n'
+                f'    (enc : list (string * V)) : option (list (string * V)) :=\n'
+                f'  if {flag} then Some (dict_merge ({"match user with Some d => d | None => [] end" if merged else "[]"}) enc) else user.')
+    return '\n'.join([
+        '(* Mesh.save -> to_file -> to_meshio *)',
+        f'Definition gen_to_meshio_params : list string := {sl(p_to)}.',
+        f'Definition gen_to_file_passes : list string := {sl(passed_tf)}.       (* positional arguments of to_meshio(...) in to_file *)',
+        f'Definition gen_to_file_params : list string := {sl(tf_all)}.',
+        f'Definition gen_save_passes : list string := {sl(passed_sv)}.          (* positional arguments of to_file(...) in Mesh.save *)',
+        f'Definition gen_to_meshio_defaults : list (string * string) := {dl(d_to)}.',
+        f'Definition gen_to_file_defaults : list (string * string) := {dl(d_tf)}.',
+        f'Definition gen_save_defaults : list (string * string) := {dl(d_sv)}.',
+        data('cell_data'), data('point_data')])
+
+
 def translate_hex():
     """HEX_MAPPING / INV_HEX_MAPPING (T1: literal + exact evaluation of the module constants) and the
     places where to_meshio / from_meshio apply them (T2)"""
@@ -608,6 +685,7 @@ def translate():
     dc = part('mesh.py: to_dict, from_dict', translate_dict)
     nz = part('mesh.py: save_npz, load_npz', translate_npz)
     gl = part('io/meshio.py: to_meshio, from_meshio (data dictionaries, slot table of the decoder)', translate_glue)
+    fw = part('mesh.py: Mesh.save; io/meshio.py: to_file, to_meshio (argument forwarding)', translate_save_forwarding)
     tm = mt = None
     parts = [HEADER]
     if cd:
@@ -626,4 +704,6 @@ def translate():
         parts.append(nz)
     if hx:
         parts.append(CLASS_TABLES)
+    if fw:
+        parts.append(fw)
     return '\n\n'.join(parts) + '\n', tm, mt, errors
